@@ -78,7 +78,7 @@ def build(T, kind, outcomes, n_requests, max_functions, abort_who, abort_at, nes
             if out == "user-error":
                 raise UserError("boom")
             res = []
-            real = types.SimpleNamespace(failed_realizations=np.array([out == "too-few"]))
+            real = types.SimpleNamespace(failed_realizations=np.array([out in ("too-few", "all-failed")]))
             if isinstance(out, (list, tuple)):
                 real = types.SimpleNamespace(failed_realizations=np.array([False]))
             if compute_functions:
@@ -117,7 +117,7 @@ def build(T, kind, outcomes, n_requests, max_functions, abort_who, abort_at, nes
     cfg = types.SimpleNamespace(
         variables=types.SimpleNamespace(initial_values=np.zeros(1), mask=None),
         optimizer=types.SimpleNamespace(method="x", max_functions=max_functions, output_dir=None, stdout=None, stderr=None),
-        realizations=types.SimpleNamespace(realization_min_success=1),
+        realizations=types.SimpleNamespace(realization_min_success=0 if "all-failed" in [o for o in outcomes if isinstance(o, str)] else 1),
     )
     validate = types.SimpleNamespace(model_validate=lambda config, context=None: cfg)
     stubs = {(MOPT, "EnOptConfig"): validate, (MEVS, "EnOptConfig"): validate, (MOPT, "EnsembleEvaluator"): FakeEvaluator, (MEVS, "EnsembleEvaluator"): FakeEvaluator}
@@ -166,7 +166,7 @@ def restore(env):
 
 
 # ----------------------------------------------------------------------------------------- executable reading of the documented behaviour
-def expected(kind, outcomes, n_requests, max_functions, abort_at, batch=None):
+def expected(kind, outcomes, n_requests, max_functions, abort_at, batch=None, nested_abort=None):
     """Returns (exit_code_name | 'propagates', [event names], aborted, function_evaluations, results_delivered_flags).
     abort_at: index of the emitted event at which some receiver raises a user abort (None: never)."""
     ev, state = [], {"aborted": False}
@@ -188,6 +188,11 @@ def expected(kind, outcomes, n_requests, max_functions, abort_at, batch=None):
         if kind == "optimizer" and max_functions is not None and nfun >= max_functions:
             code = "MAX_FUNCTIONS_REACHED"
             break
+        if nested_abort is not None and k == nested_abort:
+            # the nested (inner) optimization run for this request was aborted by the user: the outer step stops before evaluating
+            code = "USER_ABORT"
+            state["aborted"] = True
+            break
         if emit("START_EVALUATION"):
             code = "USER_ABORT"
             break
@@ -208,6 +213,11 @@ def expected(kind, outcomes, n_requests, max_functions, abort_at, batch=None):
         if out == "too-few" or (isinstance(out, (list, tuple)) and "too-few" in out):
             code = "TOO_FEW_REALIZATIONS"
             break
+        if out == "all-failed" and kind == "optimizer":
+            # every realization failed although realization_min_success < 1 lets the evaluation through: an algorithm that cannot
+            # handle NaN stops with TOO_FEW_REALIZATIONS - after the results have been delivered
+            code = "TOO_FEW_REALIZATIONS"
+            break
         nfun += batch or 1
         k += 1
     if code is None:
@@ -217,7 +227,7 @@ def expected(kind, outcomes, n_requests, max_functions, abort_at, batch=None):
     return code, ev, state["aborted"], nfun, delivered
 
 
-OUTCOMES = ("ok", "too-few", "filter-abort", "evaluator-abort", "user-error")
+OUTCOMES = ("ok", "too-few", "all-failed", "filter-abort", "evaluator-abort", "user-error")
 RECEIVERS = ("handler1", "handler2", "observer1", "observer2")
 
 
@@ -232,6 +242,12 @@ def cases(tier):
     # evaluator step on a batch of vectors: too few realizations for ANY vector must be reported
     for vec in (("ok", "ok"), ("ok", "too-few"), ("too-few", "ok"), ("too-few", "too-few")):
         yield "evaluator/vectors=%s" % ",".join(vec), {"kind": "evaluator", "n": 1, "outcomes": [list(vec), "ok"], "mf": None, "vectors": 2}
+    # nested optimization: the inner plan reports a user abort at request 0 or 1 (or never)
+    for n in (1, 2):
+        for na in (None, 0, 1):
+            if na is not None and na >= n:
+                continue
+            yield "optimizer/nested/requests=%d/inner-abort-at=%s" % (n, na), {"kind": "optimizer", "n": n, "outcomes": ["ok", "ok"], "mf": None, "nested": True, "nested_abort": na}
     # population methods: batches of 3 vectors per request (the budget may be exceeded by at most one batch)
     for n in (1, 2):
         for mf in (None, 1, 2, 4):
@@ -250,9 +266,28 @@ def run_case(T, case, clauses):
     grad = bool(T.choose(2)) if kind == "optimizer" else False
     batch = case.get("batch")
     plan, step_id, log, env, step = build(T, kind, case["outcomes"], case["n"], case["mf"], who, abort_at, with_gradient=grad, batch=batch)
+    extra = {}
+    if case.get("nested"):
+        from ropt.results import FunctionResults
+
+        class Inner:  # the inner plan, by contract: runs its function, may end up aborted
+            def __init__(self):
+                self.aborted, self.calls, self.parent = False, 0, None
+
+            def set_parent(self, p):
+                self.parent = p
+
+            def run_function(self, variables):
+                i = self.calls
+                self.calls += 1
+                if case.get("nested_abort") is not None and i == case["nested_abort"]:
+                    self.aborted = True
+                return FunctionResults(batch_id=None, metadata={}, evaluations=types.SimpleNamespace(variables=np.asarray(variables)), realizations=None, functions=None)
+
+        extra["nested_optimization"] = Inner()
     try:
         try:
-            rc = plan.run_step(step_id, config={}, **({"variables": np.zeros((case["vectors"], 1))} if case.get("vectors") else {}))
+            rc = plan.run_step(step_id, config={}, **extra, **({"variables": np.zeros((case["vectors"], 1))} if case.get("vectors") else {}))
             outcome = rc.name
         except UserError:
             outcome = "propagates"
@@ -261,7 +296,7 @@ def run_case(T, case, clauses):
         except (UnboundLocalError, AssertionError, ZeroDivisionError, AttributeError, TypeError) as exc:
             outcome = "internal:" + type(exc).__name__
         names_h1 = [e.event_type.name for n, e in log if n == "handler1"]
-        want_code, want_events, want_aborted, want_nfun, want_delivered = expected(kind, case["outcomes"], case["n"], case["mf"], abort_at, batch)
+        want_code, want_events, want_aborted, want_nfun, want_delivered = expected(kind, case["outcomes"], case["n"], case["mf"], abort_at, batch, case.get("nested_abort"))
         if "exit" in clauses:
             T.prove("C14.step_ends_with_the_documented_exit_code", outcome == want_code, "got %s, expected %s; events %s" % (outcome, want_code, names_h1))
             T.prove("C14.no_internal_exception_escapes", not outcome.startswith("internal") and outcome != "escaped-abort", outcome)
